@@ -3246,7 +3246,8 @@ func (pc *persistConn) writeRequest(r *http.Request, w io.Writer, usingProxy boo
 
 	// Flush and wait for 100-continue if expected.
 	if waitForContinue != nil {
-		if bw, ok := w.(*bufio.Writer); ok {
+		// w may be wrapped by the request header dumpers: flush the raw writer.
+		if bw, ok := rw.(*bufio.Writer); ok {
 			err = bw.Flush()
 			if err != nil {
 				return err
@@ -3262,7 +3263,7 @@ func (pc *persistConn) writeRequest(r *http.Request, w io.Writer, usingProxy boo
 		}
 	}
 
-	if bw, ok := w.(*bufio.Writer); ok && tw.FlushHeaders {
+	if bw, ok := rw.(*bufio.Writer); ok && tw.FlushHeaders {
 		if err := bw.Flush(); err != nil {
 			return err
 		}
